@@ -9,6 +9,7 @@ import (
 	"strconv"
 	"strings"
 	"testing"
+	"time"
 
 	"pgregory.net/rapid"
 
@@ -313,6 +314,20 @@ func TestReplay(t *testing.T) {
 		t.Fatalf("no scenario check registered for %s", p)
 	}
 	Replay(t, c, f)
+}
+
+// The local time zone of the test process is varied per shard: nothing in the cache may depend
+// on it (HTTP dates are GMT).
+func init() {
+	zones := []*time.Location{time.UTC, time.FixedZone("east", 5*3600+1800), time.FixedZone("west", -8*3600)}
+	h := 0
+	for _, c := range os.Getenv("VERIF_SHARD") {
+		h = h*31 + int(c)
+	}
+	if h < 0 {
+		h = -h
+	}
+	time.Local = zones[h%len(zones)]
 }
 
 func envInt(name string, def int) int {
